@@ -173,6 +173,7 @@ type arrival struct {
 	Local   string // listener address that took the connection
 	TLS     bool
 	From    string // remote address
+	SocksUser, SocksPass string
 }
 
 type polResult struct {
@@ -324,7 +325,9 @@ func (w *polWorld) listenRecorder(node, addr string, withTLS string) {
 func (w *polWorld) listenSocks(node, addr, user, pass string) {
 	serve(w.env, node, addr, func(conn *simnet.Conn) {
 		tc := &teeConn{Conn: conn, w: w, node: node}
-		target, ok := socks5Accept(tc, user != "", user, pass)
+		target, su, sp, ok := socks5AcceptAny(tc)
+		_ = user
+		_ = pass
 		if !ok {
 			conn.Close()
 			return
@@ -333,7 +336,7 @@ func (w *polWorld) listenSocks(node, addr, user, pass string) {
 		if mm := polTokRe.FindStringSubmatch(target); mm != nil {
 			tok = mm[1]
 		}
-		w.record(&arrival{Token: tok, Node: node, How: "socks", Target: target, Local: conn.LocalAddr().String(), From: conn.RemoteAddr().String()})
+		w.record(&arrival{Token: tok, Node: node, How: "socks", Target: target, Local: conn.LocalAddr().String(), From: conn.RemoteAddr().String(), SocksUser: su, SocksPass: sp})
 		conn.Write([]byte{5, 0, 0, 1, 0, 0, 0, 0, 0, 0})
 		w.serveRecorder(node, conn, conn.LocalAddr().String(), conn.RemoteAddr().String(), false, "socks-tunnel", target)
 	})
@@ -467,6 +470,7 @@ func (w *polWorld) setup() {
 	w.listenRecorder("proxyB", ipUpB+":*", "")
 	w.listenSocks("socksS", ipSocks+":1080", "", "")
 	w.listenRecorder("socksS", ipSocks+":*", "")
+	w.listenSocks("redir", ipRedirect+":1080", "", "")
 }
 
 func parseDeny(rules []string) (forwarder.Matcher, error) {
@@ -550,6 +554,13 @@ func (w *polWorld) start() (*sut.SUT, error) {
 			prev(tc)
 			tc.RedirectFunc = forwarder.DialRedirectFromHostPortPairs(pairs)
 		}
+	}
+	if c.PAC != "" {
+		pool, err := newPAC(c.PAC)
+		if err != nil {
+			return nil, fmt.Errorf("pac: %w", err)
+		}
+		opts.PAC = pacAdapter{pool}
 	}
 	return sut.Start(w.env, opts)
 }
